@@ -114,4 +114,61 @@ def session (e : Env) (next : Int) (fs : List Frame) : List Out × Bool :=
   | .close => ([], true)
   | .login => ([], false)   -- not part of this model
 
+/-! ### the player registry behind `players.online`
+
+`Proxy.PlayerCount()` is `len(p.playerIDs)`; the status response's `players.online` is that number, so the `online`
+input of `Env` is the result of a REGISTRY HISTORY: `registerConnection` / `unregisterConnection` calls in one of the
+two registry modes (`kick` = `OnlineMode && OnlineModeKickExistingPlayers`).  A connection `c : Nat` has a fixed
+lower-cased username `nameOf c` and UUID `idOf c`.  Both Go maps are modelled as lists of connections, the key of an
+entry being `idOf c` resp. `nameOf c` (`put` = map assignment: the entry with the same key is replaced).
+`live` is the SPEC's ghost: the connections that registered successfully and were neither unregistered nor kicked
+since — the players that are online. -/
+
+structure Attrs where
+  nameOf : Nat → String
+  idOf   : Nat → Nat
+
+structure Registry where
+  ids   : List Nat := []     -- playerIDs   (values; key `idOf c`)
+  names : List Nat := []     -- playerNames (values; key `nameOf c`)
+  live  : List Nat := []     -- ghost: who is online
+  deriving DecidableEq, Repr
+
+inductive RegOp where
+  | reg (c : Nat)      -- registerConnection(c)
+  | unreg (c : Nat)    -- unregisterConnection(c) (teardown of c, registered or not)
+  deriving DecidableEq, Repr
+
+/-- `unregisterConnection`: delete an index entry only if it belongs to this very connection -/
+def unregister (r : Registry) (c : Nat) : Registry :=
+  { ids := r.ids.filter (· != c), names := r.names.filter (· != c), live := r.live.filter (· != c) }
+
+/-- `registerConnection` -/
+def register (a : Attrs) (kick : Bool) (r : Registry) (c : Nat) : Registry :=
+  if kick then
+    -- `existing, ok := playerIDs[id]; existing.Disconnect(…)` ⇒ its teardown unregisters it; then retry
+    let r1 := match r.ids.find? (fun d => a.idOf d == a.idOf c) with
+      | some d => unregister r d
+      | none => r
+    { ids := r1.ids.filter (fun d => a.idOf d != a.idOf c) ++ [c],
+      names := r1.names.filter (fun d => a.nameOf d != a.nameOf c) ++ [c],
+      live := r1.live.filter (fun d => a.idOf d != a.idOf c) ++ [c] }   -- same-UUID players are kicked, `c` is online
+  else if r.names.any (fun d => a.nameOf d == a.nameOf c) || r.ids.any (fun d => a.idOf d == a.idOf c) then r
+  else
+    { ids := r.ids.filter (fun d => a.idOf d != a.idOf c) ++ [c],
+      names := r.names.filter (fun d => a.nameOf d != a.nameOf c) ++ [c],
+      live := r.live ++ [c] }
+
+def regStep (a : Attrs) (kick : Bool) (r : Registry) : RegOp → Registry
+  | .reg c => register a kick r c
+  | .unreg c => unregister r c
+
+def regRun (a : Attrs) (kick : Bool) (r : Registry) (ops : List RegOp) : Registry :=
+  ops.foldl (regStep a kick) r
+
+/-- `Proxy.PlayerCount()` -/
+def playerCount (r : Registry) : Nat := r.ids.length
+/-- a count taken from the name index instead (what a "the two indices have equal size" shortcut computes) -/
+def playerCountByNames (r : Registry) : Nat := r.names.length
+
 end Gate.C43
